@@ -48,7 +48,10 @@ def _http_script(p):
         # the response has begun when the connection goes; its rest comes afterwards
         sc += [["send", start], ["wait", "late"], ["send", body]]
     elif r == "late_after_disconnect":
-        sc += [["recv_until_disconnect"], ["note", "saw-disconnect"], ["send", start], ["send", body]]
+        # (a push among the late messages, where the protocol has pushes: it is a send like the others - accepted silently, and it starts
+        #  nothing: an application instance started now could never be told of a disconnect that has already happened)
+        sc += [["recv_until_disconnect"], ["note", "saw-disconnect"]] + ([["send", {"type": "http.response.push", "path": "/pushed-late-%d" % tag, "headers": []}]] if p.get("late_push") else []) + \
+              [["send", start], ["send", body]]
     elif r == "raise":
         sc += [["wait", "late"], ["raise", "Exception"]]
     sc.append(["linger", 40.0])
@@ -127,6 +130,7 @@ def gen(rng, tier):
             for k in range(3):
                 tag = i * 10 + k
                 p = _plan(rng, tag)
+                p["late_push"] = rng.random() < 0.5
                 plans.append(p)
                 by_tag[str(tag)] = _http_script(p)
                 if rng.random() < 0.25:
@@ -229,6 +233,13 @@ def check(case, obs, tally):
         tag = int(m.group(1)) if m else None
         p = plans.get(tag)
         if p is None:
+            if (sc.get("path") or "").startswith("/pushed-late"):
+                # an instance started by a push that was sent after the connection had gone: it can never be told (its one disconnect
+                # belongs to a connection that is over) - starting it is the violation
+                tally.clause("disconnect-once")
+                out.append({"clause": "disconnect-once", "sig": "C03.instance-started-after-closure/%s" % proto,
+                            "detail": "http.response.push sent after the application had received its disconnect started instance %d (%s): received %r, %s" % (
+                                inst, sc.get("path"), [r.get("type") for r in obs.apps.recvs[inst]], "stuck in a send" if inst in open_sends else "exit %r" % exits.get(inst))})
             continue
         recvs = obs.apps.recvs[inst]
         kinds = [r.get("type") for r in recvs]
